@@ -50,8 +50,9 @@ impl ThickSegment {
     pub fn edges_bounding_box(&self) -> Rectangle {
         let (right, left) = self.edges();
 
+        // The skeleton is drawn by using the right edge, see `intersection`.
         if self.is_skeleton() {
-            return left.bounding_box();
+            return right.bounding_box();
         }
 
         Rectangle::with_corners(
